@@ -267,6 +267,14 @@ def run(repo, rep, tier):
         v = n.value
         fs = facts.get(n, ((), ()))[0]
         kind = None
+        if isinstance(v, ast.Name) and v.id != vparam:
+            # a local with exactly one assignment stands for that value
+            defs = [x.value for x in walk_no_nested(cv.node)
+                    if isinstance(x, ast.Assign) and len(x.targets) == 1 and
+                    isinstance(x.targets[0], ast.Name) and
+                    x.targets[0].id == v.id]
+            if len(defs) == 1:
+                v = defs[0]
         if v is None or (isinstance(v, ast.Constant) and v.value is None):
             kind = 'None'
         elif isinstance(v, ast.Name) and v.id == vparam:
